@@ -26,7 +26,7 @@ class PathExplosion(AnalysisError):
     pass
 
 
-@dataclass
+@dataclass(eq=False)
 class Event:
     kind: str                 # cond | assign | store | call | return | raise | loop | iter | endloop | except | with
     node: ast.AST
@@ -70,7 +70,7 @@ class Path:
 
 
 class State:
-    __slots__ = ('env', 'heap', 'ver', 'events', 'conds', 'known', 'loops', 'status', 'truncated', 'retfacts')
+    __slots__ = ('env', 'heap', 'ver', 'events', 'conds', 'known', 'loops', 'status', 'truncated', 'retfacts', 'epoch')
 
     def __init__(self):
         self.env: Dict[str, Term] = {}
@@ -83,6 +83,7 @@ class State:
         self.status = 'normal'       # normal | break | continue | return | raise
         self.truncated = False
         self.retfacts: Dict[Term, list] = {}
+        self.epoch = 0
 
     def fork(self) -> "State":
         s = State()
@@ -96,6 +97,7 @@ class State:
         s.status = self.status
         s.truncated = self.truncated
         s.retfacts = dict(self.retfacts)
+        s.epoch = self.epoch
         return s
 
 
@@ -120,6 +122,8 @@ class WalkOptions:
     domain: str = 'int'
     raise_depth: int = 3
     axioms: Optional[Callable] = None     # (known: dict, atom) -> Optional[bool]; invariants the caller may assume
+    inline_full: frozenset = frozenset()  # qualnames of package callees walked inline when called as a statement
+    invalidate: bool = True               # forget facts about fields a call may have written
 
 
 def _is_single_return(fn: FuncInfo) -> Optional[ast.expr]:
@@ -159,6 +163,71 @@ class Walker:
         self.stats['functions_walked'] += 1
         self.stats['paths'] += len(out)
         return out
+
+    def is_abstract(self, fn: FuncInfo) -> bool:
+        """A hook meant to be overridden outside the package: body is `pass` or `raise NotImplementedError`."""
+        b = fn.body
+        if len(b) != 1:
+            return False
+        s0 = b[0]
+        if isinstance(s0, ast.Pass):
+            return True
+        if isinstance(s0, ast.Raise) and s0.exc is not None:
+            e = s0.exc.func if isinstance(s0.exc, ast.Call) else s0.exc
+            return isinstance(e, ast.Name) and e.id == 'NotImplementedError'
+        return False
+
+    def written_fields(self, fn: FuncInfo, _seen=None) -> frozenset:
+        """Names of attributes a call of fn may store to or mutate, transitively over resolved package callees
+        (syntactic over-approximation, used only to forget path facts)."""
+        if not hasattr(self, '_wf_cache'):
+            self._wf_cache = {}
+        key = fn.qualname + ('#setter' if fn.is_setter else '')
+        if key in self._wf_cache:
+            return self._wf_cache[key]
+        _seen = _seen if _seen is not None else set()
+        if key in _seen:
+            return frozenset()
+        _seen.add(key)
+        out = set()
+        for n in ast.walk(fn.node):
+            tgts = []
+            if isinstance(n, ast.Assign):
+                tgts = n.targets
+            elif isinstance(n, (ast.AugAssign, ast.AnnAssign)):
+                tgts = [n.target]
+            elif isinstance(n, ast.Delete):
+                tgts = n.targets
+            for t in tgts:
+                for tt in (t.elts if isinstance(t, (ast.Tuple, ast.List)) else [t]):
+                    cur = tt
+                    while isinstance(cur, ast.Subscript):
+                        cur = cur.value
+                    if isinstance(cur, ast.Attribute):
+                        out.add(cur.attr)
+            if isinstance(n, ast.Call):
+                f = n.func
+                if isinstance(f, ast.Attribute) and f.attr in MUTATORS:
+                    cur = f.value
+                    while isinstance(cur, ast.Subscript):
+                        cur = cur.value
+                    if isinstance(cur, ast.Attribute):
+                        out.add(cur.attr)
+                try:
+                    tgt = self.ti.resolve_call(n, fn)
+                except Exception:
+                    tgt = None
+                if tgt is not None and tgt.kind == 'pkg':
+                    for c in tgt.funcs:
+                        if self.is_abstract(c):
+                            out.add('*')
+                        else:
+                            out |= self.written_fields(c, _seen)
+                elif tgt is not None and tgt.kind == 'unknown':
+                    out.add('*')
+        res = frozenset(out)
+        self._wf_cache[key] = res
+        return res
 
     def return_summaries(self, fn: FuncInfo, opts: WalkOptions):
         """[(path condition, returned term)] of a small pure callee, over callee-frame terms; None if not summarisable."""
@@ -279,6 +348,33 @@ class _Ctx:
                 if len(pick) == 1 and (nones and others):
                     self._learn(st, pick[0], True)
 
+    def invalidate(self, st: State, fields) -> None:
+        """A call may have changed shared state: forget the literals that mention the affected fields.  fields is a set
+        of attribute names, or None for an open-world callback (anything reachable may have changed); in that case
+        access paths that were already read get a new version so that later reads are distinct quantities."""
+        if not self.opts.invalidate:
+            return
+        from .terms import term_symbols
+
+        def hit(sym):
+            return isinstance(sym, Attr) and (fields is None or sym.name in fields)
+        dropped = []
+        for a in list(st.known):
+            syms = term_symbols(a)
+            if any(hit(x) for x in syms):
+                dropped.append((a, syms))
+                del st.known[a]
+        if fields is None:
+            st.epoch += 1
+            paths = set()
+            for a, syms in dropped:
+                for x in syms:
+                    if isinstance(x, Attr) and x.name not in ('model', 'systems', 'environment'):
+                        paths.add(x)
+            for pth in paths:
+                if not (isinstance(pth, Attr) and isinstance(pth.base, Attr) and False):
+                    st.heap[pth] = App('@t', (pth, Num(Fraction(st.epoch))))
+
     def decide(self, st: State, f: Formula) -> Optional[bool]:
         """Three-valued evaluation of f under the literals already established on this path."""
         if isinstance(f, FConst):
@@ -354,7 +450,59 @@ class _Ctx:
         st.env[s.name] = Sym('<class ' + s.name + '>')
         return [st]
 
+    def _full_inline_target(self, e, st: State):
+        """If e is a call to a single package function selected for full inlining, return (callee, tgt)."""
+        if not self.opts.inline_full or not isinstance(e, ast.Call) or len(self.inline_stack) >= 4:
+            return None
+        tgt = self.ti.resolve_call(e, self.fn, self.types)
+        if tgt.kind != 'pkg' or len(tgt.funcs) != 1 or tgt.via == 'ctor':
+            return None
+        callee = tgt.funcs[0]
+        if callee.qualname not in self.opts.inline_full or callee.qualname in self.inline_stack or callee.qualname == self.fn.qualname:
+            return None
+        return callee, tgt
+
+    def inline_statement_call(self, e: ast.Call, st: State, callee: FuncInfo, tgt: CallTarget):
+        """Walk the callee's body in place of the call: returns [(state, returned term)]."""
+        f = e.func
+        args = [self.ev(a, st) for a in e.args]
+        kw = {k.arg if k.arg is not None else '**': self.ev(k.value, st) for k in e.keywords}
+        recv = None
+        if isinstance(f, ast.Attribute):
+            if isinstance(f.value, ast.Call) and isinstance(f.value.func, ast.Name) and f.value.func.id == 'super':
+                sn = self.ti._self_name(self.fn) or 'self'
+                recv = st.env.get(sn, Sym(sn))
+            else:
+                recv = self.ev(f.value, st)
+        skip_self = callee.cls is not None and not callee.is_static and callee.parent is None and tgt.via in ('method', 'super', 'byname')
+        benv = self.bind_args(callee, recv if skip_self else None, args, kw, st, skip_self)
+        if benv is None:
+            return None
+        self.emit(st, 'call', e, targets=[callee], target_kind='pkg', callee_name=callee.qualname, recv=recv if skip_self else None,
+                  args=tuple(args), kw=tuple(sorted(kw.items())), via=tgt.via, expr=e, result=None, inlined=True, full_inline=True)
+        sub = _Ctx(self.w, callee, self.opts, self.inline_stack + (callee.qualname,))
+        saved = dict(st.env)
+        st.env = dict(benv)
+        outs = []
+        for o in sub.block(callee.body, [st]):
+            val = Const(None)
+            if o.status == 'return':
+                last = o.events[-1] if o.events else None
+                if last is not None and last.kind == 'return':
+                    val = last.data.get('value', Const(None))
+                    last.kind = 'ireturn'
+                o.status = 'normal'
+            if o.status in ('normal',):
+                o.env = dict(saved)
+            outs.append((o, val))
+        return outs
+
     def st_Expr(self, s, st):
+        fi = self._full_inline_target(s.value, st)
+        if fi is not None:
+            r = self.inline_statement_call(s.value, st, *fi)
+            if r is not None:
+                return [o for o, v in r]
         self.ev(s.value, st, stmt=s)
         return self._after_calls(st)
 
@@ -365,13 +513,14 @@ class _Ctx:
 
     def _after_calls(self, st: State) -> List[State]:
         """Fork on tabled raises of the callees evaluated in the statement just processed."""
-        pend = [e for e in st.events if e.kind == 'call' and e.data.get('_pending_raises')]
+        pend = [e for e in st.events if e.kind == 'call' and (e.data.get('_pending_raises') or e.data.get('_invalidate'))]
         if not pend:
             return [st]
         out = []
         cont = st
         for ev in pend:
-            sums = ev.data.pop('_pending_raises')
+            sums = ev.data.pop('_pending_raises', [])
+            inv = ev.data.pop('_invalidate', None)
             neg_all = []
             multi = len(ev.data.get('targets', [])) > 1 and ev.data.get('via') in ('method', 'byname')
             for rs, cond in sums:
@@ -400,11 +549,26 @@ class _Ctx:
                 break
             for n in neg_all:
                 self.assert_cond(cont, n)
+            if inv is not None:
+                # facts about fields the call may have written are forgotten only now: the raise conditions above
+                # speak about the state at call entry
+                self.invalidate(cont, None if inv[0] == 'all' else inv[1])
         if cont is not None:
             out.append(cont)
         return out
 
     def st_Assign(self, s, st):
+        fi = self._full_inline_target(s.value, st)
+        if fi is not None:
+            r = self.inline_statement_call(s.value, st, *fi)
+            if r is not None:
+                outs = []
+                for o, v in r:
+                    if o.status == 'normal':
+                        for t in s.targets:
+                            self.assign(t, v, o, s)
+                    outs.append(o)
+                return outs
         v = self.ev(s.value, st, stmt=s)
         for t in s.targets:
             self.assign(t, v, st, s)
@@ -439,6 +603,17 @@ class _Ctx:
         return [st]
 
     def st_Return(self, s, st):
+        fi = self._full_inline_target(s.value, st) if s.value is not None else None
+        if fi is not None:
+            r = self.inline_statement_call(s.value, st, *fi)
+            if r is not None:
+                outs = []
+                for o, v in r:
+                    if o.status == 'normal':
+                        self.emit(o, 'return', s, value=v)
+                        o.status = 'return'
+                    outs.append(o)
+                return outs
         v = self.ev(s.value, st, stmt=s) if s.value is not None else Const(None)
         outs = self._after_calls(st)
         for o in outs:
@@ -1342,6 +1517,16 @@ class _Ctx:
                            inlined=inl is not None)
             if inl is None:
                 self._attach_raises(ev, tgt, recv if skip_self else None, args, kw, st, skip_self)
+                if any(self.w.is_abstract(c) for c in tgt.funcs):
+                    ev.data['_invalidate'] = ('all',)
+                else:
+                    wf = set()
+                    for c in tgt.funcs:
+                        wf |= self.w.written_fields(c)
+                    if '*' in wf:
+                        ev.data['_invalidate'] = ('all',)
+                    elif wf:
+                        ev.data['_invalidate'] = ('fields', frozenset(wf))
                 if len(tgt.funcs) == 1 and len(self.inline_stack) == 0:
                     rows = self.w.return_summaries(callee, self.opts)
                     if rows:
@@ -1363,6 +1548,8 @@ class _Ctx:
         self.emit(st, 'call', e, targets=[], target_kind=tgt.kind, callee_name=tgt.ext or ('.' + name if recv is not None else name),
                   recv=recv, args=tuple(args), kw=kwt, via=tgt.via, expr=e, result=r,
                   func_term=(self.ev(f, st) if isinstance(f, ast.Name) else None))
+        if tgt.kind == 'unknown':
+            st.events[-1].data['_invalidate'] = ('all',)     # open-world callback (G6): may call any public method
         return r
 
     def _attach_raises(self, ev: Event, tgt: CallTarget, recv, args, kw, st: State, skip_self: bool):
